@@ -103,6 +103,19 @@ class Factory(object):
             cls = ci
         return Obj(cls, fields)
 
+    def abstract(self, clsname, fields=None, **methods):
+        """Object of a class that is not under analysis; methods are native callables(I, args, kwargs)."""
+        o = Obj(clsname, fields or {})
+        o.methods = dict(methods)
+        return o
+
+    def anylist(self, name, tail=(), cls="list"):
+        """list whose first elements (any number, any values) are not inspected, then `tail`."""
+        nm = self._name(name)
+        any_sort = z3.DeclareSort("Any")
+        l = ListV(list(tail), cls=cls, prefix=z3.Const(nm, z3.SeqSort(any_sort)))
+        return l
+
     def dict(self, entries=None, **kw):
         d = DictV(entries or {})
         for k, v in kw.items():
@@ -130,6 +143,9 @@ class Factory(object):
         d.entries["name"] = [self.str(name + ".name"), z3.simplify(has_name)]
         d.entries["namespace"] = [self.one_of(None, lambda: self.str(name + ".namespace")), z3.simplify(is_tag) if is_tag is not False else False]
         return d, t
+
+    def I_module(self, name):
+        return repo.get_module(name)
 
     def ctx_fresh(self, base, sort="str"):
         return self.ctx.fresh(base, sort)
